@@ -791,10 +791,11 @@ def c12_r2(ctx):
         probs.append("from_errors_dicts does not return cls(...)")
     else:
         c = outs[0].value
+        from ..util import comp_struct
         ev, dv = kw(c, "errors"), kw(c, "data")
+        ev = strip_pre(outs[0].deref(ev)) if ev is not None else None  # a list built first and then passed is the same list
         ep = fe.node.args.args[1].arg
-        if not (isinstance(ev, ast.ListComp) and norm(ev.generators[0].iter) == ep and not ev.generators[0].ifs
-                and norm(ev.elt) == f"GraphQLClientGraphQLError.from_dict({norm(ev.generators[0].target)})"):
+        if comp_struct(ev) not in ((f"GraphQLClientGraphQLError.from_dict($0)", [(ep, [])]), (f"GraphQLClientGraphQLError.from_dict(error=$0)", [(ep, [])])):
             probs.append(f"errors is {norm(ev)[:100] if ev is not None else None}; expected one GraphQLClientGraphQLError.from_dict(e) per element, unfiltered")
         if dv is None or norm(dv) != "data":
             probs.append("data is not passed through")
@@ -1016,9 +1017,15 @@ def _handler_atom(msg_type: Optional[str], members: Dict[str, str], expected: Op
     T = [f"{decoded}.get('type')", f"{decoded}['type']"]
 
     def atom(e):
-        t = norm(strip_pre(e))
+        from ..util import comp_struct
+        ee = strip_pre(e)
+        t = norm(ee)
         if t in T:
             return bool(msg_type)
+        # membership in the set / list of all enum values, whatever the comprehension variable is called
+        if isinstance(ee, ast.Compare) and len(ee.ops) == 1 and isinstance(ee.ops[0], ast.In) and norm(ee.left) in T \
+                and comp_struct(ee.comparators[0]) == ("$0.value", [(_MT, [])]):
+            return msg_type in members
         for tt in T:
             if t == f"{tt} in {{t.value for t in {_MT}}}" or t == f"{tt} in [t.value for t in {_MT}]":
                 return msg_type in members
